@@ -38,6 +38,10 @@ def run(ck, ctx):
     ck.rule("R05.8", "EXEC re-observes with WATCH's observer: the command the connection handler constructs to re-read a watched key in the "
                      "EXEC arm is the command the WATCH arm constructed for the snapshot (two different observers - GET vs MGET/EXISTS/TYPE - "
                      "answer differently for some key states, so unchanged keys would compare unequal or changed keys equal)")
+    ck.rule("R05.9", "EXEC decides nothing before it has compared the watched keys: every array reply of EXEC (result array or nil) is "
+                     "dominated by the comparison of the watched keys with their snapshots - in the executor's execute_exec and in the "
+                     "connection handler's EXEC arm (where the only earlier exit is the EXECABORT error); an early exit for an empty "
+                     "queue would report a failed WATCH as success")
     ck.rule("R05.7", "a queue-time command error always aborts: on the in_transaction edge of the command-parse error arm every "
                      "path sets transaction_errors = true; unknown commands in MULTI do the same")
     ck.nd("equality with sequential execution; isolation against other connections (EXEC is a sequence of independent shard awaits)")
@@ -256,6 +260,15 @@ def _rules(ck, prog, cfg):
              "for some key states (GET answers WRONGTYPE for a list/set/hash/zset, MGET answers nil), so an unchanged watched key "
              "compares unequal and EXEC aborts - or a changed one compares equal" % (",".join(sorted(exec_cmds)), ",".join(sorted(snap_cmds))),
              fn.where(), detail="both use Command::{%s}" % ",".join(sorted(snap_cmds)))
+
+    # ---- R05.9 (connection): array replies of the EXEC arm come after the watched keys were taken for comparison
+    takes = [b for b, t in fn.calls() if b in exec_arm and t.get("args") and _self_field(fn, t["args"][0]) == "watched_keys"]
+    arrs9 = [(b, st) for b in sorted(exec_arm) for st in fn.blocks[b]["st"] if st["rv"]["k"] == "agg" and st["rv"].get("n") == "redis::resp::RespValue::Array"]
+    for k, (ab, st) in enumerate(arrs9):
+        ck.check(any(fn.dominates(tb, ab) for tb in takes), "R05.9", "EXEC:array-reply#%d%s" % (k, _tag(cfg)),
+                 "the EXEC arm can answer with an array on a path that never looked at the watched keys", fn.where(st["ln"]),
+                 detail="dominated by the read of watched_keys")
+    ck.floor("R05.9" + _tag(cfg), len(arrs9), 1)
 
     # ---- R05.6
     n6 = 0
@@ -491,6 +504,20 @@ def _executor_twin(ck, prog, cfg):
             ck.check(colls[0] not in f.reach([tt2]) and f.dominates(viol, colls[0]), "R05.3", "executor:abort-before-replay" + _tag(cfg),
                      "the queued commands can be executed although a watched key changed", f.where(f.term(viol)["ln"]),
                      detail="replay only on the not-violated edge")
+    # R05.9: no array reply (a result array or the nil array) is decided before the watched keys were compared
+    viol9 = None
+    for b in sorted(f.reachable_blocks()):
+        si = switch_info(f, b)
+        if si and si["kind"] == "val" and si["src"].kind in ("call", "path") and (si["src"].root == "watch_violated" or
+                                                                              (si["src"].kind == "call" and is_callee(si["src"].term, r"Iterator>::any::"))):
+            viol9 = b
+    arrs = [(b, st) for b, i, st in f.stmts() if st["rv"]["k"] == "agg" and st["rv"].get("n") == "redis::resp::RespValue::Array"]
+    for k, (ab, st) in enumerate(arrs):
+        ck.check(viol9 is not None and f.dominates(viol9, ab), "R05.9", "executor:execute_exec:array-reply#%d%s" % (k, _tag(cfg)),
+                 "execute_exec can answer with an array (a result array or nil) on a path that never compared the watched keys with their "
+                 "snapshots: a transaction whose watched key changed is reported as executed (e.g. a fast exit for an empty queue "
+                 "answers [] where Redis answers nil)", f.where(st["ln"]), detail="dominated by the watch comparison")
+    ck.floor("R05.9:executor" + _tag(cfg), len(arrs), 1)
     # UNWATCH clears, MULTI opens with an empty queue
     f = prog.one(EX + "transaction_ops::<impl redis::executor::CommandExecutor>::execute_unwatch")
     ck.check(bool(_xresets(f)["watched_keys"]), "R05.2", "executor:execute_unwatch:watched_keys" + _tag(cfg), "UNWATCH does not clear the snapshots", f.where())
